@@ -534,7 +534,7 @@ def selftest():
 
 
 SUBS = [
-    Sub("history", check_history, strategy=strat_history, quick=320, thorough=3500, workers_quick=4,
+    Sub("history", check_history, strategy=strat_history, quick=600, thorough=3500, workers_quick=4,
         workers_thorough=16, budget_quick=50, budget_thorough=560),
 ]
 
